@@ -36,9 +36,9 @@ CFGS = {
     "allinl": {"cc": "gcc", "flags": ["-O2", "-g1", "-DNDEBUG", "-DMIR_MAX_INSNS_FOR_INLINE=100000",
                                       "-DMIR_MAX_INSNS_FOR_CALL_INLINE=100000",
                                       # every call and inline insn is inlined whatever the callee size, until the caller has grown
-                                      # 6 times and beyond 1500 insns (without a bound nested call chains grow exponentially)
-                                      "-DMIR_MAX_FUNC_INLINE_GROWTH=600",
-                                      "-DMIR_MAX_CALLER_SIZE_FOR_ANY_GROWTH_INLINE=1500"]},
+                                      # 5 times and beyond 1000 insns (without a bound nested call chains grow exponentially)
+                                      "-DMIR_MAX_FUNC_INLINE_GROWTH=500",
+                                      "-DMIR_MAX_CALLER_SIZE_FOR_ANY_GROWTH_INLINE=1000"]},
 }
 
 # C17: library objects whose direct references to libc's memory functions are renamed to vp_lib_* (defined by the harness)
